@@ -16,7 +16,7 @@ import copy
 import re
 from collections import OrderedDict
 
-from harness import common
+from harness import common, histlib
 from harness.common import Case, req, enc_list, enc_pairs, enc_str, ok, fmt_cnf, OPCODE
 
 from cnfgen.formula.cnf import CNF
@@ -36,6 +36,10 @@ RULE = ("per transformation (xor or maj eq neq one lin(6 operators) atleast atmo
         "variables, repeated and opposite literals, unit clauses), arity 1..4, thresholds -1..k+1, random bipartite "
         "compression graphs (isolated left vertices, empty right side); plus a malformed stream (literal 0, literals "
         "beyond nvars, k <= 0, wrong graph size, unknown function) compared by outcome class only; "
+        "subst_hist: the input is ONE formula object with a history (harness/histlib.py: grown by clauses with fresh indices, raised "
+        "counts, new variables / groups, batches, header edits or by becoming its own transformation, and looked at on the way by "
+        "transformations, renderings, label lists, shuffles), minimal shapes per transformation x growth kind and random histories "
+        "judged after growth steps; "
         "distinct = distinct request line; non-trivial = the input formula has at least one non-empty clause")
 ASSUMPTIONS = [
     "input formulas are well formed (non-zero literals within the declared variable count) in the theorems; "
@@ -387,6 +391,26 @@ def build(suite, info):
                         nontrivial=nontrivial, info=info)
         return Case(suite, request(t, info), impl, semantic_oracle(t, info, state, check_count=(t != "flip")),
                     cls=classify(t, info), nontrivial=nontrivial, info=info)
+    if suite == "subst_hist":
+        # the input is ONE formula object with a history (harness/histlib.py): grown step by step and looked at on the
+        # way (rendered, labels listed, transformed, shuffled), possibly itself the result of a transformation (chains);
+        # the model and the oracle are given the CURRENT content: that of a twin built by the same growth steps and
+        # never looked at
+        tr = info["tr"]
+        R = histlib.twin(info["steps"])
+        d = histlib.trans_info(tr, R.number_of_variables(), [list(c) for c in R.clauses()])
+
+        def impl():
+            F = histlib.play(info["steps"])
+            try:
+                G = apply_real(t, F, d)
+            except Exception as e:
+                state["exc"] = type(e).__name__
+                raise
+            state["G"] = G
+            return ok(fmt_cnf(G))
+        return Case(suite, request(t, d), impl, semantic_oracle(t, d, state), cls=t + ":after:" + histlib.describe(info["steps"][-1:]),
+                    nontrivial=any(len(c) > 0 for c in d["clauses"]), info=info)
     if suite == "malformed":
         # outside the property's domain: outcome of the model and of the code are compared, nothing else
         def impl():
@@ -585,13 +609,73 @@ def cases(ctx):
         if "graph" in p:
             p["graph"] = gen_graph(rng, nv)
         infos.append(("header", dict(nv=nv, clauses=cl, header=[list(x) for x in h], **p)))
+    infos += history_infos(common.sub_rng(seed, "C05", "hist"), tier)
     for suite, info in infos:
-        yield build(suite, info)
+        c = build(suite, info)
+        if suite == "subst" and wide_gadget(info):
+            common.HEAVY_REQUESTS.add(c.req)        # wide gadgets: seconds each in the model
+        yield c
+
+
+def wide_gadget(info):
+    """requests that cost the model seconds: arity (or compression degree) 17 and more (2^16 clauses per literal), or a
+    parity / majority gadget whose clause-by-clause product has thousands of clauses"""
+    if (info.get("k") or 0) >= 17:
+        return True
+    g = info.get("graph")
+    if g is not None:
+        deg = {v: len(set(b for a, b in g["edges"] if a == v)) for v in range(1, g["l"] + 1)}
+    elif info.get("t") in ("xor", "maj"):
+        deg = {v: info.get("k") or 1 for v in range(1, info.get("nv", 0) + 1)}
+    else:
+        return False
+    if any(d >= 17 for d in deg.values()):
+        return True
+    total = 0
+    for c in info.get("clauses", []):
+        size = 1
+        for l in c:
+            size *= 2 ** max(deg.get(abs(l), 1) - 1, 0)
+        total += size
+    return total >= 4000
+
+
+def history_infos(rng, tier):
+    """every transformation applied to a formula that HAS A HISTORY: it was looked at (the same transformation, other
+    transformations and chains, renderings with variable names, label lists, shuffles …), then grew in every way
+    (clauses with fresh indices, raised counts, new variables / groups, batches, header edits; or it became its own
+    transformation), then is transformed"""
+    out = []
+    quick = tier == "quick"
+    # minimal shapes: transform, ONE growth step of each kind, transform again (every transformation)
+    for tr in histlib.all_trans(rng):
+        hs = histlib.minimal_histories([{"obs": "trans", "chain": [tr]}])
+        for h in (hs if not quick or tr["t"] in ("xor", "lift", "ite", "flip", "xorcomp") else rng.sample(hs, 5)):
+            out.append(("subst_hist", dict(t=tr["t"], tr=tr, steps=h)))
+    # other ways of having been looked at before, same growth steps
+    for ob in histlib.obs_pool(3, solve=not quick):
+        hs = histlib.minimal_histories([ob])
+        for h in (rng.sample(hs, 2) if quick else hs):
+            tr = rng.choice(histlib.all_trans(rng))
+            out.append(("subst_hist", dict(t=tr["t"], tr=tr, steps=h)))
+    for _ in range(50 if quick else 2500):
+        cap = rng.choice([4, 5, 6, 8])
+        steps, cuts = histlib.gen_history(rng, rng.randint(2, 6), cap, become=.15,
+                                          favourite=lambda n: {"obs": "trans", "chain": [histlib.gen_trans(rng, n, maxk=2)]})
+        for cut in (cuts if not quick else rng.sample(cuts, min(3, len(cuts)))):
+            n = histlib.twin(steps[:cut]).number_of_variables()
+            tr = histlib.gen_trans(rng, n, maxk=3 if n <= 4 else 2)
+            out.append(("subst_hist", dict(t=tr["t"], tr=tr, steps=steps[:cut])))
+    return out
 
 
 def search(ctx, case):
     """the correspondence broke on `case`: look for an input on which the PROPERTY fails, among the
     case itself and small formulas with the same transformation (all arities / thresholds)"""
+    if case.suite == "subst_hist":
+        common.run_impl(case)
+        r = common.run_oracle(case)
+        return {"suite": case.suite, "info": case.info, "failure": r} if r is not None else None
     if case.suite not in ("subst", "flipcount", "malformed"):
         return None
     info = dict(case.info)
